@@ -224,10 +224,12 @@ type Query { q(query: String, variables: String, data: String, response: String,
 type Subscription { s(query: String, variables: String, data: String): String }
 """
 QUERIES_LOCALS = """
+query lowerCamel($data: String) { q(data: $data) }
 query Clash($query: String, $variables: String, $data: String, $response: String, $operation_name: String) {
   q(query: $query, variables: $variables, data: $data, response: $response, operation_name: $operation_name) }
 subscription Sub($query: String, $variables: String, $data: String) { s(query: $query, variables: $variables, data: $data) }
 subscription NoVars { s }
+subscription lower_snake { s }
 """
 
 
@@ -266,6 +268,18 @@ def bounded_method_locals(tier, seed):
                 bad.append(f"raises-{type(e).__name__}: {str(e)[:100]}")
             if bad:
                 fails.append(dict(inputs=dict(scenario=f"{'async' if async_ else 'sync'}-query"), failed=bad, outcome=sent[-1:] if sent else None))
+            # the operation name that travels is the authored one, whatever its spelling
+            cases += 1
+            bad = []
+            try:
+                call = client.lower_camel(data="d")
+                out = asyncio.run(call) if async_ else call
+                if sent[-1].get("operationName") != "lowerCamel" or "query lowerCamel" not in sent[-1].get("query", ""):
+                    bad.append(f"operationName-is-the-authored-name: {sent[-1].get('operationName')!r}")
+            except Exception as e:      # noqa
+                bad.append(f"raises-{type(e).__name__}: {str(e)[:100]}")
+            if bad:
+                fails.append(dict(inputs=dict(scenario=f"{'async' if async_ else 'sync'}-query-lower-case-name"), failed=bad, outcome=None))
             if async_:
                 cases += 1
                 bad = []
@@ -317,6 +331,24 @@ def bounded_method_locals(tier, seed):
                     bad.append(f"raises-{type(e).__name__}: {str(e)[:100]}")
                 if bad:
                     fails.append(dict(inputs=dict(scenario="async-subscription-without-variables"), failed=bad, outcome=[v for k, v in ws2.log][:3]))
+                cases += 1
+                bad = []
+                ws3 = F.NativeWS([json.dumps({"type": "connection_ack"}), json.dumps({"type": "complete"})])
+
+                async def drive3():
+                    client = mod.Client(url="http://x/graphql", ws_url="ws://x/graphql")
+                    with mock.patch.object(base, "ws_connect", lambda *a, **k: ws3):
+                        async for _ in client.lower_snake():
+                            pass
+                try:
+                    asyncio.run(drive3())
+                    subs = [f for f in (json.loads(v) for k, v in ws3.log if k == "ws_send") if f.get("type") == "subscribe"]
+                    if len(subs) != 1 or subs[0]["payload"].get("operationName") != "lower_snake":
+                        bad.append(f"operationName-is-the-authored-name: {subs[0]['payload'].get('operationName') if subs else None!r}")
+                except Exception as e:      # noqa
+                    bad.append(f"raises-{type(e).__name__}: {str(e)[:100]}")
+                if bad:
+                    fails.append(dict(inputs=dict(scenario="async-subscription-lower-case-name"), failed=bad, outcome=None))
         except Exception as e:      # noqa
             cases += 1
             fails.append(dict(inputs=dict(scenario=f"generation-async={async_}"), failed=["generation"], outcome=f"{type(e).__name__}: {str(e)[:200]}"))
